@@ -290,7 +290,7 @@ def replay_history(case, history):
             raised = True
         if raised == expect_ok:
             vs.append(V("update-failure-differs-from-reference", what=what, raised=raised, reference_evaluates=expect_ok))
-        poisoned = raised
+        poisoned = raised or not expect_ok  # either way no judgeable state until the next complete update
         return new_leaf
 
     for step, ev in enumerate(history):
@@ -362,6 +362,11 @@ def replay_history(case, history):
 def case_graph_histories(case):
     """BFS over update histories on one graph."""
     depth = case["depth"]
+    n0 = case["n"]
+    try:
+        reference_values({i: tuple(case["graph"][i]) for i in range(n0)}, n0, case["form"], {i: leaf_initial(i) for i in free_leaves(case)})
+    except IndexError:
+        return core.ood("initial-values-outside-the-domain-of-an-expression")
     r = bfs(lambda h, info: EVENTS, lambda h: replay_history(case, h), depth)
     vs = []
     for v in r["violations"]:
